@@ -307,16 +307,15 @@ PROPS["C03"] = dict(
     assumptions=["buffer_impl::add is executed with vec_'s storage pre-sized to 8 chunks (models/stubs_c03.c): libstdc++ vector growth is not the subject",
                  "chunk sizes <= 2^40 (no size_t overflow of the byte total)"],
     outside="connection::nonblocking_write / async_write loops, chunked HTTP framing, gzip, copy_buf / cache copy, SCGI/HTTP output paths, "
-            "std::ostream formatting of headers, socket layer; FastCGI responses longer than 70000 bytes per call",
+            "std::ostream formatting of headers, socket layer; fastcgi::format_output (harness h_c03c_fcgi_framing kept: 240 000 symex steps, > 28 GB for one application write)",
     obligations=[
         dict(id="C03.a", harness="C03_fastcgi_out.cpp", entry="h_c03a_advance", ctors=False, clang_flags=["-fno-inline"],
-             drop=["11buffer_implIPKcE3addES3_m"], roots=["verif_buffer_add"], models=["stubs_c03.c"], replay="generated", max_alloc=128,
+             drop=["11buffer_implIPKcE3addES3_m"], roots=["verif_buffer_add"], models=["stubs_c03.c"], replay="generated", max_alloc=128, cbmc_defs=["VERIF_NO_CHK"],
              desc="booster::aio::details::advance(buf,n) (pending output after a short write) == the bytes of buf after the first n, chunk by chunk",
-             tiers=T(quick=dict(split=[[0, 1, 2, 3]], unwind=6, unwindset={"verif_memmove.0": 70, "verif_memcpy.0": 70, "verif_memset.0": 70}, timeout=900, bounds="gather lists of 0..3 chunks, every chunk size 1..2^40, every n (64 bit)"))),
-        dict(id="C03.c", harness="C03_fastcgi_out.cpp", entry="h_c03c_fcgi_framing", ctors=False, clang_flags=["-fno-inline"],
-             drop=["11buffer_implIPKcE3addES3_m"], roots=["verif_buffer_add"], models=["stubs_c03.c"], replay="generated", max_alloc=128,
-             desc="fastcgi::format_output: STDOUT records (<= 65535 content, 8-byte aligned, right request id) carry header block + payload once and in order; EOF block iff completed",
-             tiers=T(quick=dict(split=[[0, 1]], unwind=6, unwindset={"verif_memmove.0": 70, "verif_memcpy.0": 70, "verif_memset.0": 70}, timeout=900, bounds="one application write of 0..70000 bytes (symbolic), with / without a pending 8-byte header block; request id, completed symbolic"))),
+             tiers=T(quick=dict(split=[[0, 1, 2, 3]], unwind=6, unwindset={"verif_memmove.0": 70, "verif_memmove.1": 70, "verif_memcpy.0": 70, "verif_memset.0": 70}, timeout=900, bounds="gather lists of 0..3 chunks, every chunk size 1..2^40, every n (64 bit)"))),
+        dict(id="C03.b", harness="C03_fastcgi_out.cpp", entry="h_c03b_gather", ctors=False, clang_flags=["-fno-inline"], max_alloc=128, cbmc_defs=["VERIF_NO_CHK"],
+             desc="booster::aio::buffer_impl add/get/bytes_count (real code incl. vector growth): the gather list is exactly the non-empty chunks added, in order",
+             tiers=T(quick=dict(split=[[0, 1, 2, 3]], unwind=6, unwindset={"verif_memmove.0": 70, "verif_memmove.1": 70, "verif_memcpy.0": 70, "verif_memset.0": 70}, timeout=900, bounds="0..3 add() calls, every size 0..2^40"))),
     ],
 )
 
@@ -437,7 +436,6 @@ PROPS["C17"] = dict(
 
 # properties for which no obligation can be built with this technique (reason required)
 NOT_APPLICABLE = {
-    "C03": "solver-based checking could not reach it within budget: fastcgi::format_output + an independent de-framer gave no verdict in 900 s at one gather entry (vector<entry> reallocation of pointer-carrying PODs); nonblocking_write / chunked framing / copy_buf need booster::aio buffers, ostringstream formatting and socket objects that are not encodable here (DESIGN.md section 8)",
     "C07": "mem_cache (hash map + three intrusive lists + multimap of deadlines + trigger index) is beyond the heap sizes CBMC handled on IR-derived C here; the simpler buddy allocator already failed (DESIGN.md section 8)",
     "C08": "buddy allocator harness (typed arena) did not finish symbolic execution in 600 s for two operations (recursive page_alloc over pointer-linked free lists in one arena object); the LRU/limit logic lives in mem_cache, see C07",
     "C09": "real thread interleavings are not explorable with this technique (CBMC's concurrency support on IR-derived C++ with heap containers does not scale to two operations); a lock-discipline argument as used for C17 would need the mem_cache encoding that C07 lacks",
